@@ -30,6 +30,8 @@ def shards(tier, seed):
     per = 200 if tier == 'quick' else 12000
     budget = 45 if tier == 'quick' else 540
     _out = [{'kind': 'random', 'count': per, 'budget_s': budget} for _ in range(16)]
+    _out.append({'kind': 'deep', 'count': 2 if tier == 'quick' else 20, 'budget_s': budget,
+                 'depths': [1100, 1400] if tier == 'quick' else netgen.DEEP_THOROUGH})
     if tier == 'thorough':
         _out.append({'kind': 'suite', 'select': ['tests/cirbo/sat', 'tests/cirbo/minimization'], 'budget_s': 900})
     return _out
@@ -239,6 +241,11 @@ def gen_case(rng, spec):
     net = netgen.rand_net(rng, shape=rng.choice(netgen.SHAPES), max_in=5, min_in=1, max_g=9, max_arity=3, n_out=n_out,
                           const_operands=False)
     variant = rng.choice(['twin', 'same', 'cleanup', 'cleanup', 'flip', 'flip', 'independent', 'permute_inputs', 'mismatch'])
+    if spec.get('kind') == 'deep':   # operands with long dependency chains
+        net = netgen.deep_net(rng, rng.choice(spec['depths']), n_in=rng.randint(2, 3),
+                              types=['AND', 'OR', 'XOR', 'NAND', 'NOR', 'NXOR', 'GT', 'LT', 'NOT', 'IFF'])
+        n_out = len(net.outputs)
+        variant = rng.choice(['same', 'flip', 'twin'])
     if variant == 'mismatch':
         other = netgen.rand_net(rng, n_in=len(net.inputs) + rng.choice([0, 1]), n_out=n_out + rng.choice([1, 2]), max_g=6)
         if rng.random() < 0.5:
